@@ -3,6 +3,9 @@
 import json, os
 HERE = os.path.dirname(os.path.dirname(os.path.abspath(__file__)))
 CHECKS = {
+ "C05": dict(cat="model_checking", technique="TLA+ Stream machine + equality algebra: TLC MC, and TLC trace validation of real dump/load histories on files and pipes, round trips and equals()/assert_equals() under all 64 ignore combinations",
+    text="Stream.tla models several stored objects on one stream (Dump appends, Load returns the head and advances by exactly its size, EOF distinct) and defines equals() over the components of a table collection; TLC model-checks FIFO/position/EOF invariants and the reflexive/symmetric/monotone laws. Real histories (1-4 dumps of table collections or tree sequences on a file or pipe, loads until EOF, byte positions after every call) and round trips through path/file/asdict-fromdict/pickle/copy/tree-sequence load, on valid and invalid collections with metadata everywhere, are validated by TLC; equals and assert_equals are evaluated under all 64 ignore_* subsets for pairs differing in chosen components and compared with the definition.",
+    note="Column byte equality is computed by the harness and logged as a flag; with a metadata schema set, stored metadata is kept decodable (an undecodable-under-schema object is outside the domain).", ref="DESIGN.md §3 C05"),
  "C13": dict(cat="model_checking", technique="TLA+ row-list machine (TableOps): TLC MC + simulated behaviours replayed on real tables + TLC trace validation of random histories; immutability as an action property over recorded TreeSequence calls",
     text="TableOps models a table as a sequence of row records with every public row/column operation as an action (keep_rows with self-reference remapping and dangling rejection). TLC model-checks the machine for the two self-referential classes, its simulated histories are replayed on real tables with full-content comparison after each step, and random histories on all eight table classes (16 operation kinds, failed operations included) are validated step by step by TLC. For immutability, every public TreeSequence property and ~40 TreeSequence/Tree/Variant calls are recorded with the tables digest after the call and after an attempted write into every returned ndarray; TLC checks tables'=tables over the trace.",
     note="Row values are small integers/short byte strings; digest is a CRC computed by the harness; the call alphabet for immutability is finite and hand-chosen.", ref="DESIGN.md §3 C13"),
